@@ -249,7 +249,7 @@ def _p1(ctx, g, x, root, fl):
             succ_edges = set()
             for sid in x.switches():
                 e = g.strip(g.switch_expr(sid))
-                if e[0] == 'discr' and g.strip(e[1]) == ('call', C):
+                if e[0] == 'discr' and g.strip(e[1])[0] == 'call' and x.rep(g.strip(e[1])[1]) == x.rep(C):
                     succ_edges.update(x.switch_edges(sid, '0'))
             starts = succ_edges
             exp = g.call_args(C)[1]
@@ -359,7 +359,7 @@ def _p1(ctx, g, x, root, fl):
         if pin_kind:
             ctx.add('P1c', 'T-GUARD', fn, True, 'Full on a pinned slot', flavour=fl, where=g.where(nid), sub=sub)
             continue
-        if g.nodes[nid].inst == g.root_inst:
+        if x.home(nid) == g.root_inst:
             # handled by the C13 map rule (no-reader branch of the entry point)
             continue
         # capacity Full: fresh scan in this call, on the full edge of a fullness test
@@ -382,7 +382,7 @@ def _p1(ctx, g, x, root, fl):
         if n.id not in g.live() or n.call is None or n.call['inlined'] is not None:
             continue
         for i, a in enumerate(g.call_args(n.id)):
-            if g.strip(a) == payload and not (n.id in W and i == 1):
+            if g.strip(a) == payload and not (x.rep(n.id) in W and i == 1):
                 consumers.append(x.describe(n.id))
     ctx.add('P1f', 'T-FLOW', root, not drops and not consumers,
             'payload is never dropped or consumed by the send path other than by the slot write' if not drops and not consumers else
@@ -493,7 +493,7 @@ def _p2(ctx, g, x, root, fl, no_reader_bit):
     bad_claims = [x.describe(c.nid) for c in claims if c.nid in reach]
     ctx.add('C13map', 'T-REACH', root, not bad_claims, 'no claim is reachable once the no-reader bit was seen' if not bad_claims else
             'claim reachable after the no-reader bit was seen: %s' % bad_claims, flavour=fl, sub='noclaim')
-    errs = [(nid, si, rv) for (nid, si, rv) in x.aggs(r'TrySendError::(Full|Disconnected)$') if nid in reach and g.nodes[nid].inst == g.root_inst]
+    errs = [(nid, si, rv) for (nid, si, rv) in x.aggs(r'TrySendError::(Full|Disconnected)$') if nid in reach and x.home(nid) == g.root_inst]
     ok = bool(errs) and all(rv['variant'] == 'Disconnected' and g.strip(x.agg_expr(nid, si)[4][0]) == payload for (nid, si, rv) in errs)
     ctx.add('C13map', 'T-MAP', root, ok,
             'no-reader branch returns Err(TrySendError::Disconnected(payload))' if ok else
@@ -528,7 +528,7 @@ def _who_may_write(ctx, root):
     for (rule, adt, field, pat) in (('W1', 'MultiQueue', 'head', 'MultiQueue.head/'),
                                     ('W2', 'QueueEntry', 'wraps', 'QueueEntry.wraps'),
                                     ('W5', 'MultiQueue', 'tail_cache', 'MultiQueue.tail_cache')):
-        cands = fns_mentioning(F, adt, field)
+        cands = sorted({s_ for c_ in fns_mentioning(F, adt, field) for s_ in ctx.subjects_for(c_)})
         ctx.floor(rule, len(cands), 2, 'functions naming %s.%s' % (adt, field))
         allowed = set()
         for fl in FLAVOURS:
@@ -556,7 +556,8 @@ def _who_may_write(ctx, root):
             for s in b['stmts']:
                 if s['k'] == 'assign' and s['rv']['k'] == 'agg' and s['rv']['ak'] == 'adt' and \
                         s['rv']['adt'].endswith('QueueState') and s['rv']['variant'] == 'Uni':
-                    ok = constructs(F, name, 'MultiQueue') or name == root or f.get('from_expansion')
+                    allowed_ = lambda f_: bool(constructs(F, f_, 'MultiQueue') or f_ == root or F.fns[f_].get('from_expansion'))
+                    ok = all(allowed_(o_) for o_ in ctx.terminal_owners(name, allowed_))
                     ctx.add('W11', 'T-WHO', name, ok, 'QueueState::Uni built at queue construction / guarded switch' if ok else
                             'QueueState::Uni constructed in %s' % short_fn(name), where='%s:%d' % (f['file'], s['line']), sub='Uni.bb%d' % bi)
 
@@ -587,7 +588,7 @@ def _clone_send(ctx):
         v = g.strip(g.call_args(n)[1])
         ctx.add('W6', 'T-FLOW', fn, v[0] == 'c' and str(v[1]) == '1', 'writers += 1', where=g.where(n), sub='inc')
     # W6: who writes `writers`
-    cands = fns_mentioning(F, 'MultiQueue', 'writers')
+    cands = sorted({s_ for c_ in fns_mentioning(F, 'MultiQueue', 'writers') for s_ in ctx.subjects_for(c_)})
     ctx.floor('W6', len(cands), 3, 'functions naming MultiQueue.writers')
     dropfn = ctx.fn1(r'^<multiqueue::InnerSend<.*> as std::ops::Drop>::drop$')
     for c in cands:
